@@ -482,3 +482,48 @@ Proof.
     + unfold obj_start, dl0. cbn [p_comp p_off]. lia.
     + unfold obj_start, dl0. cbn [p_comp p_off]. lia.
 Qed.
+
+(* ------------------------------------------------------------------ writePtr from the source, all branches *)
+Lemma rp_step f : R_cs f -> R_wp (S f).
+Proof.
+  intros QC w objs pads q src fc w' [H C] Hms Hq Vs HW Hb.
+  destruct (p_valid src) eqn:Hv.
+  2:{ rewrite write_ptr_invalid_loc in HW by exact Hv.
+      destruct (write_ptr_hinv_gen f w objs pads q src fc w' H Hq (or_introl Hv) HW Hb) as [pads' H'].
+      exists [], pads'. rewrite app_nil_r. split; auto. }
+  destruct (p_kind src) eqn:Ek.
+  - (* struct *)
+    destruct (os_isZero (p_size src)) eqn:EZ.
+    + unfold write_ptr in HW. cbn [write_ptr_gen] in HW. rewrite Hv, Ek, EZ in HW. cbn [negb] in HW.
+      rewrite empty_struct_word_eq in HW. cbn [of_opt_panic bind] in HW. unfold lift0 in HW.
+      destruct (writeRawPointer (w_dst w) (fst q) (snd q) empty_struct_word) as [m'| |] eqn:EW; cbn [bind] in HW; try discriminate.
+      apply Ok_inj in HW. subst w'. apply tinv_ext. split; [|exact C]. cbn [w_dst w_set_dst].
+      apply (hinv_write_inline (w_dst w) objs pads m' q empty_struct_word); auto.
+    + apply (rstruct_copy f QC w objs pads q src fc w'); auto. split; auto.
+  - (* list *)
+    apply (rlist_copy f QC w objs pads q src fc w'); auto. split; auto.
+  - (* capability: the client is appended to the capability table of the message under
+       construction, the pointer holds its new index *)
+    destruct (Vs Hv) as (_ & _ & X). rewrite Ek in X.
+    unfold write_ptr in HW. cbn [write_ptr_gen] in HW. rewrite Hv, Ek in HW. cbn [negb is_src] in HW.
+    set (m1 := mkBM (bm_arena (w_dst w)) (bm_segs (w_dst w)) (bm_caps (w_dst w) ++ [p_len src]) (bm_rl (w_dst w))) in *.
+    unfold lift0 in HW.
+    destruct (writeRawPointer m1 (fst q) (snd q) (rawInterfacePointer (u32 (zlen (bm_caps (w_dst w)))))) as [m'| |] eqn:EW; cbn [bind] in HW; try discriminate.
+    apply Ok_inj in HW. subst w'. apply tinv_ext. split; [|exact C]. cbn [w_dst w_set_dst].
+    assert (H1 : hinv m1 objs pads).
+    { apply (hinv_same_data (w_dst w)); auto; try reflexivity. exact (hi_inv _ _ _ H). }
+    apply (hinv_write_inline m1 objs pads m' q (rawInterfacePointer (u32 (zlen (bm_caps (w_dst w)))))); auto.
+    right. right. exists (u32 (zlen (bm_caps (w_dst w)))). split; [apply u32_range|reflexivity].
+Qed.
+
+(* [copy_src_all]: writePtr and copyStruct with a handle of another message as source - any bytes
+   0..255, any pointer graph that readPtr accepts - keep the table invariant of the message
+   under construction *)
+Theorem copy_src_all : forall f, R_wp f /\ R_cs f.
+Proof.
+  induction f as [|f [IW IC]].
+  - split.
+    + intros w objs pads q src fc w' _ _ _ _ HW. discriminate HW.
+    + intros w objs pads dst src w' _ _ _ _ _ _ HW. discriminate HW.
+  - split; [apply rp_step; exact IC|apply rs_step; exact IW].
+Qed.
